@@ -242,7 +242,7 @@ func ksStress(ks *didcrypto.KeyStore, findings *[]finding) int {
 		worker(func() { ks.Load(p0, "wrong") })
 	}
 	// progress watchdog: the counter must keep moving
-	deadline := time.Now().Add(6 * time.Second)
+	deadline := time.Now().Add(7 * time.Second)
 	last := int64(-1)
 	stuck := 0
 	for time.Now().Before(deadline) {
@@ -254,8 +254,8 @@ func ksStress(ks *didcrypto.KeyStore, findings *[]finding) int {
 			stuck = 0
 		}
 		last = cur
-		if stuck >= 6 {
-			*findings = append(*findings, finding{Clause: "C20-keystore-deadlock", Detail: fmt.Sprintf("16 goroutines using the key store made no progress for 3 s after %d operations", cur), Cmd: "8 x LoadByAddress, 4 x Save, 4 x Load"})
+		if stuck >= 10 {
+			*findings = append(*findings, finding{Clause: "C20-keystore-deadlock", Detail: fmt.Sprintf("16 goroutines using the key store made no progress for 5 s after %d operations", cur), Cmd: "8 x LoadByAddress, 4 x Save, 4 x Load"})
 			close(stop)
 			return int(cur) // the goroutines are blocked for good; do not wait for them
 		}
@@ -265,7 +265,7 @@ func ksStress(ks *didcrypto.KeyStore, findings *[]finding) int {
 	go func() { wg.Wait(); close(done) }()
 	select {
 	case <-done:
-	case <-time.After(5 * time.Second):
+	case <-time.After(20 * time.Second):
 		*findings = append(*findings, finding{Clause: "C20-keystore-deadlock", Detail: "goroutines using the key store did not finish", Cmd: "8 x LoadByAddress, 4 x Save, 4 x Load"})
 	}
 	return int(atomic.LoadInt64(&ops))
